@@ -32,6 +32,8 @@ type timingWitness struct {
 	Detail string `json:"detail"`
 }
 
+var portMu sync.Mutex
+
 const (
 	checkPeriod = 200 * time.Millisecond
 	slack       = 1500 * time.Millisecond
@@ -51,6 +53,7 @@ func runTimingCases(replay bool) {
 			timingCase{"udp-play-keepalive-only", "udp", false, "keepalive", t},
 			timingCase{"udp-play-rtcp-only", "udp", false, "rtcp", t},
 			timingCase{"tcp-play-keepalive", "tcp", false, "keepalive", t},
+			timingCase{"udp-play-keepalive-options-only", "udp", false, "keepalive-options", t},
 			timingCase{"udp-record-media", "udp", true, "media", t},
 			timingCase{"udp-record-silent", "udp", true, "", t},
 			timingCase{"tcp-record-silent", "tcp", true, "", t},
@@ -100,7 +103,14 @@ func timingAttempt(ts *rig.TestServer, c timingCase) bool {
 	}
 	defer p.Close()
 	p.Tag = newTag()
+	// four consecutive ports (two medias), reserved atomically so that concurrent cases never
+	// share a client port - the server attributes datagrams by (address, port)
+	portMu.Lock()
 	clientPort := rig.FreePortPair()
+	for tries := 0; rig.FreePortPair() != clientPort+2 && tries < 100; tries++ {
+		clientPort = rig.FreePortPair()
+	}
+	portMu.Unlock()
 	var rtpConn, rtcpConn *net.UDPConn
 	if c.Proto == "udp" {
 		rtpConn, err = net.ListenUDP("udp", &net.UDPAddr{IP: net.ParseIP("127.0.0.1"), Port: clientPort})
@@ -190,8 +200,13 @@ func timingAttempt(ts *rig.TestServer, c timingCase) bool {
 		for time.Since(start) < liveFor {
 			t0 := time.Now()
 			switch c.Live {
-			case "keepalive":
-				req := p.Request(base.GetParameter, ts.URL("/stream"), base.Header{"Session": base.HeaderValue{sessID}}, nil)
+			case "keepalive", "keepalive-options":
+				// both keep-alive styles of real clients: GET_PARAMETER and OPTIONS with the session id
+				meth := base.GetParameter
+				if c.Live == "keepalive-options" {
+					meth = base.Options
+				}
+				req := p.Request(meth, ts.URL("/stream"), base.Header{"Session": base.HeaderValue{sessID}}, nil)
 				if res, err := p.Do(req, respTimeout); err != nil || res.StatusCode != base.StatusOK {
 					if closedCount() > 0 {
 						break
